@@ -1155,9 +1155,9 @@ func c12FormText(v int) string {
 // c12Logged: the initform with value v is rendered as a form that records its own evaluation
 func c12Logged(v int) bool { return v != -1 && ((v >= 10 && v%3 == 0) || v%3 == 2) }
 
-func (e *c12Exec) evVar() string  { return "*c12ev" + e.sfx + "*" }
-func (e *c12Exec) aiVar() string  { return "*c12ai" + e.sfx + "*" }
-func (e *c12Exec) asVar() string  { return "*c12as" + e.sfx + "*" }
+func (e *c12Exec) evVar() string { return "*c12ev" + e.sfx + "*" }
+func (e *c12Exec) aiVar() string { return "*c12ai" + e.sfx + "*" }
+func (e *c12Exec) asVar() string { return "*c12as" + e.sfx + "*" }
 func (e *c12Exec) defVars() {
 	if !e.evDefined {
 		e.evDefined = true
